@@ -930,16 +930,22 @@ func (c *callable) Value(env *env) reflect.Value {
 	// It is a Scriggo function.
 	fn := c.fn
 	vars := c.vars
-	c.value = reflect.MakeFunc(fn.Type, func(args []reflect.Value) []reflect.Value {
+	// If the type of the function refers to a type defined in the compiled
+	// code, the Go function is created with the corresponding Go type.
+	fnType := fn.Type
+	if st, ok := fnType.(ScriggoType); ok {
+		fnType = st.GoType()
+	}
+	c.value = reflect.MakeFunc(fnType, func(args []reflect.Value) []reflect.Value {
 		nvm := create(env)
 		if fn.Macro {
 			nvm.renderer = newRenderer(&strings.Builder{})
 		}
-		nOut := fn.Type.NumOut()
+		nOut := fnType.NumOut()
 		results := make([]reflect.Value, nOut)
 		var r = [4]int8{1, 1, 1, 1}
 		for i := range nOut {
-			typ := fn.Type.Out(i)
+			typ := fnType.Out(i)
 			results[i] = reflect.New(typ).Elem()
 			t := kindToType[typ.Kind()]
 			r[t]++
